@@ -525,7 +525,54 @@ impl OpenDir {
     }
 }
 
+/// A reader-side variant enum that knows the variant names whose bit is set in `MASK`.
+#[derive(Clone, Copy, Debug, PartialEq)]
+pub struct Known<const MASK: u32>(pub u8);
+impl<'a, const MASK: u32> TryFrom<&'a str> for Known<MASK> {
+    type Error = ();
+    fn try_from(name: &'a str) -> Result<Self, ()> {
+        match VNAMES.iter().position(|n| *n == name) {
+            Some(k) if MASK >> k & 1 == 1 => Ok(Known(k as u8)),
+            _ => Err(()),
+        }
+    }
+}
+
 impl OpenIndex {
+    fn typed_variant<const MASK: u32>(&self, i: u32) -> Result<Option<u8>, String> {
+        use jbk::reader::builder::PropertyBuilderTrait;
+        use jbk::reader::Range;
+        let b = self.store.layout().variant_id_builder::<Known<MASK>>().ok_or("store with variants has no variant id builder")?;
+        let abs = self.index.offset() + jbk::EntryIdx::from(i);
+        let reader = self.store.get_entry_reader(abs).ok_or("no entry reader")?;
+        Ok(b.create(&reader).map_err(|e| format!("typed variant: {e}"))?.map(|k| k.0))
+    }
+
+    /// `raw` is the variant id the untyped reader returned for entry `i`.
+    fn typed_variant_agrees(&self, i: u32, raw: u8) -> Result<(), String> {
+        let nvar = self.store.layout().variant_len();
+        if nvar == 0 || nvar > 4 {
+            return Ok(());
+        }
+        let got: [(u32, Result<Option<u8>, String>); 6] = [
+            (0b1111, crate::catch(|| self.typed_variant::<0b1111>(i)).unwrap_or_else(|p| Err(format!("panic {p}")))),
+            (0b0001, crate::catch(|| self.typed_variant::<0b0001>(i)).unwrap_or_else(|p| Err(format!("panic {p}")))),
+            (0b0010, crate::catch(|| self.typed_variant::<0b0010>(i)).unwrap_or_else(|p| Err(format!("panic {p}")))),
+            (0b0101, crate::catch(|| self.typed_variant::<0b0101>(i)).unwrap_or_else(|p| Err(format!("panic {p}")))),
+            (0b0110, crate::catch(|| self.typed_variant::<0b0110>(i)).unwrap_or_else(|p| Err(format!("panic {p}")))),
+            (0b1100, crate::catch(|| self.typed_variant::<0b1100>(i)).unwrap_or_else(|p| Err(format!("panic {p}")))),
+        ];
+        for (mask, g) in got {
+            let want = if mask >> raw & 1 == 1 { Some(raw) } else { None };
+            match g {
+                Ok(x) if x == want => {}
+                Ok(x) => return Err(format!("typed variant reader knowing the variants {mask:04b} answers {x:?} for an entry of variant {raw}")),
+                Err(e) => return Err(format!("typed variant reader knowing the variants {mask:04b}: {e}")),
+            }
+        }
+        Ok(())
+    }
+
     pub fn count(&self) -> u32 {
         self.index.count().into_u32()
     }
@@ -558,6 +605,11 @@ impl OpenIndex {
             .get_variant_id()
             .map_err(|e| format!("variant: {e}"))?
             .map(|v| v.into_u8());
+        // the typed way of reading the variant (a reader enum that knows only some of the
+        // variant names): it must agree with the raw variant id for every subset of known names
+        if let Some(v) = variant {
+            self.typed_variant_agrees(i, v)?;
+        }
         let (common, variants) = self.names();
         let mut vals = BTreeMap::new();
         let mut names = common;
